@@ -352,6 +352,13 @@ func (s *Service) subscribeToBeaconCommittees(ctx context.Context,
 	}
 	s.subscriptionInfosMutex.Lock()
 	s.subscriptionInfos[epoch] = subscriptionInfo
+	// Old subscriptions are removed on head events, but do not rely on head events arriving.
+	currentEpoch := s.chainTimeService.CurrentEpoch()
+	for oldEpoch := range s.subscriptionInfos {
+		if oldEpoch+2 < currentEpoch {
+			delete(s.subscriptionInfos, oldEpoch)
+		}
+	}
 	s.subscriptionInfosMutex.Unlock()
 }
 
